@@ -41,3 +41,22 @@ Definition ex_ucert : ucert := {|
 
 Example u_cert_nonvacuous : u_cert_ok ex_G ex_ucert = true /\ List.length (uc_B ex_ucert) = 4%nat.
 Proof. vm_compute. split; reflexivity. Qed.
+
+(* hypotheses of the group-dependent theorems are satisfiable: ex_G is a group, and here no new symmetry can appear *)
+From DS Require Import Model.GroupCheck Model.C05_Partition.
+
+Example ex_G_is_group : IsGroup ex_G.
+Proof. apply is_groupb_spec. vm_compute. reflexivity. Qed.
+
+Example no_new_symmetry_satisfiable :
+  forall p h, In h (stab ex_G (moved ex_pcert p)) -> In h (stab ex_G (pc_x ex_pcert)).
+Proof.
+  intros p h H. unfold stab in H. apply filter_In in H as [H _].
+  assert (E : stab ex_G (pc_x ex_pcert) = ex_G) by (vm_compute; reflexivity). rewrite E. exact H.
+Qed.
+
+(* the exact partition on a small listing: two points of one orbit (a general point and its mirror image shifted
+   by a cell), one point on the mirror plane *)
+Example core_map_example :
+  core_map ex_G [Q3 (1 # 7) (1 # 5) (1 # 3); ex_x; Q3 (1 # 7) (9 # 5) (1 # 3)] = [(0, [0; 2]); (1, [1])]%nat.
+Proof. vm_compute. reflexivity. Qed.
